@@ -52,6 +52,12 @@ theorem modelSources_match :
 theorem arel_zero_sources (N : MRep) (m : M2 K) (Z0 : K) (p : Port K) :
     arel N m 0 0 p ↔ rel N.toRep m Z0 p := arel_zero N m Z0 p
 
+/-- `TwoPort.Aparams … TwoPort.Zparams` (dispatch on the class of the native matrix, overrides in the
+    model classes): the matrix returned describes the homogeneous port relation of the two-port -/
+theorem TPN_params_sound (P : Rep) (t : Stage K) (Z0 : K) (h : okc8 t.rep P t.m Z0) (p : Port K) :
+    rel t.rep.toRep t.m Z0 p ↔ rel P (tpnParams P t Z0) Z0 p := by
+  rw [tpnParams_eq]; exact conv8_sound t.rep P t.m Z0 p h
+
 /-! ## 1. (G1) scattering representations with the documented normalised wave variables -/
 
 /-- dividing all four waves by 2 r (r a square root of Z0) does not change the S / T relation -/
@@ -253,5 +259,170 @@ theorem par2_sound (a b : Stage K) (Z0 : K) (ha : okModel a.rep .Y a.m Z0) (hb :
   constructor
   · rw [c5, e1, e3, c2, c4]; ring
   · rw [c6, e2, e4, c2, c4]; ring
+
+/-- series connection -/
+theorem ser2_sound (a b : Stage K) (Z0 : K) (ha : okModel a.rep .Z a.m Z0) (hb : okModel b.rep .Z b.m Z0)
+    (c : Conn K) (hc : c.ser) (hp : a.rel c.p) (hq : b.rel c.q) : (TPN_Ser2 a b Z0).rel c.r := by
+  have ea := (model_sound .Z a Z0 ha c.p).mp hp
+  have eb := (model_sound .Z b Z0 hb c.q).mp hq
+  obtain ⟨⟨pV1, pI1, pV2, pI2⟩, ⟨qV1, qI1, qV2, qI2⟩, ⟨rV1, rI1, rV2, rI2⟩⟩ := c
+  simp only [Conn.ser] at hc
+  obtain ⟨c1, c2, c3, c4, c5, c6⟩ := hc
+  simp only [modelOf, TPN_Zmodel, Stage.rel, TPN_Ser2, arel, lin2, M2.add] at ea eb ⊢
+  obtain ⟨e1, e2⟩ := ea
+  obtain ⟨e3, e4⟩ := eb
+  subst c1 c3
+  constructor
+  · rw [c5, e1, e3, c2, c4]; ring
+  · rw [c6, e2, e4, c2, c4]; ring
+
+/-- hybrid connection (series input, parallel output) -/
+theorem hybrid2_sound (a b : Stage K) (Z0 : K) (ha : okModel a.rep .H a.m Z0) (hb : okModel b.rep .H b.m Z0)
+    (c : Conn K) (hc : c.hyb) (hp : a.rel c.p) (hq : b.rel c.q) : (TPN_Hybrid2 a b Z0).rel c.r := by
+  have ea := (model_sound .H a Z0 ha c.p).mp hp
+  have eb := (model_sound .H b Z0 hb c.q).mp hq
+  obtain ⟨⟨pV1, pI1, pV2, pI2⟩, ⟨qV1, qI1, qV2, qI2⟩, ⟨rV1, rI1, rV2, rI2⟩⟩ := c
+  simp only [Conn.hyb] at hc
+  obtain ⟨c1, c2, c3, c4, c5, c6⟩ := hc
+  simp only [modelOf, TPN_Hmodel, Stage.rel, TPN_Hybrid2, arel, lin2, M2.add] at ea eb ⊢
+  obtain ⟨e1, e2⟩ := ea
+  obtain ⟨e3, e4⟩ := eb
+  subst c1 c3
+  constructor
+  · rw [c5, e1, e3, c2, c4]; ring
+  · rw [c6, e2, e4, c2, c4]; ring
+
+/-- inverse hybrid connection (parallel input, series output) -/
+theorem inverse_hybrid2_sound (a b : Stage K) (Z0 : K) (ha : okModel a.rep .G a.m Z0) (hb : okModel b.rep .G b.m Z0)
+    (c : Conn K) (hc : c.invhyb) (hp : a.rel c.p) (hq : b.rel c.q) : (TPN_InverseHybrid2 a b Z0).rel c.r := by
+  have ea := (model_sound .G a Z0 ha c.p).mp hp
+  have eb := (model_sound .G b Z0 hb c.q).mp hq
+  obtain ⟨⟨pV1, pI1, pV2, pI2⟩, ⟨qV1, qI1, qV2, qI2⟩, ⟨rV1, rI1, rV2, rI2⟩⟩ := c
+  simp only [Conn.invhyb] at hc
+  obtain ⟨c1, c2, c3, c4, c5, c6⟩ := hc
+  simp only [modelOf, TPN_Gmodel, Stage.rel, TPN_InverseHybrid2, arel, lin2, M2.add] at ea eb ⊢
+  obtain ⟨e1, e2⟩ := ea
+  obtain ⟨e3, e4⟩ := eb
+  subst c1 c3
+  constructor
+  · rw [c5, e1, e3, c2, c4]; ring
+  · rw [c6, e2, e4, c2, c4]; ring
+
+/-- the method spellings of the four connections -/
+theorem connection_spellings (a b : Stage K) (Z0 : K) :
+    TPN_parallel a b Z0 = TPN_Par2 a b Z0 ∧ TPN_series a b Z0 = TPN_Ser2 a b Z0 ∧
+    TPN_hybrid a b Z0 = TPN_Hybrid2 a b Z0 ∧ TPN_inverse_hybrid a b Z0 = TPN_InverseHybrid2 a b Z0 :=
+  ⟨rfl, rfl, rfl, rfl⟩
+
+/-- `TwoPortZModel.I1y / I2y` are computed directly from Z (not through B): only det Z ≠ 0 is needed -/
+theorem Zmodel_Ymodel_direct (m : M2 K) (s1 s2 Z0 : K) (h : ok_Z_Y m Z0) (p : Port K) :
+    arel .Z m s1 s2 p ↔ (TPN_Ymodel ⟨.Z, m, s1, s2⟩ Z0).rel p := by
+  rw [show TPN_Ymodel ⟨.Z, m, s1, s2⟩ Z0 = modelOf .Y ⟨.Z, m, s1, s2⟩ Z0 from rfl, modelOf_rel]
+  refine affine_transfer .Z .Y Z0 (fun p => conv_sound .Z .Y m Z0 p h) (basePort .Z s1 s2)
+    (arel_basePort .Z m s1 s2) ?_ p
+  simp only [ok_Z_Y] at h
+  obtain ⟨d, hd⟩ : ∃ d, d = m.det := ⟨_, rfl⟩
+  rw [← hd] at h
+  simp only [modelOf, TPN_Ymodel, TPN_I1y, TPN_I2y, TPN_Z_I1y, TPN_Z_I2y, TPN_Z_V1z, TPN_Z_V2z, arel, lin2, basePort,
+    conv, Z_to_Y, ← hd]
+  constructor <;> (field_simp; ring)
+
+
+/-! ## 5. (G3) existence pivots -/
+set_option linter.unnecessarySimpa false
+
+/-- (G3, necessity) if the pivot vanishes no `P` matrix describes the two-port -/
+theorem pivot_necessary (X P : MRep) (m : M2 K) (Z0 : K) (h0 : pivot X P m = 0) :
+    ¬ ∃ z : M2 K, ∀ p, rel X.toRep m Z0 p ↔ rel P.toRep z Z0 p := by
+  rintro ⟨z, h⟩
+  by_cases hd : (X, P) ∈ [(MRep.A, MRep.B), (.B, .A), (.G, .H), (.H, .G), (.Y, .Z), (.Z, .Y)]
+  · have hdet : m.det = 0 := by
+      simp only [List.mem_cons, Prod.mk.injEq, List.mem_nil_iff, or_false] at hd
+      rcases hd with ⟨rfl, rfl⟩ | ⟨rfl, rfl⟩ | ⟨rfl, rfl⟩ | ⟨rfl, rfl⟩ | ⟨rfl, rfl⟩ | ⟨rfl, rfl⟩ <;> exact h0
+    obtain ⟨x, y, hxy, k1, k2⟩ := ker_of_det_zero m hdet
+    have := (h (killPort x y X P m)).mp (killPort_rel x y X P m Z0)
+    simp only [List.mem_cons, Prod.mk.injEq, List.mem_nil_iff, or_false] at hd
+    rcases hd with ⟨rfl, rfl⟩ | ⟨rfl, rfl⟩ | ⟨rfl, rfl⟩ | ⟨rfl, rfl⟩ | ⟨rfl, rfl⟩ | ⟨rfl, rfl⟩ <;>
+      simp only [killPort, rel, lin, MRep.toRep, k1, k2, neg_zero, mul_zero, add_zero, neg_neg] at this <;>
+      rcases hxy with hx | hy <;> simp_all
+  · have := (h (killPort 0 0 X P m)).mp (killPort_rel 0 0 X P m Z0)
+    cases X <;> cases P <;> simp only [pivot] at h0 <;>
+      first
+        | exact absurd h0 one_ne_zero
+        | exact absurd (by decide) hd
+        | (simp [killPort, rel, lin, MRep.toRep, h0] at this)
+
+/-- (G3, sufficiency) if the pivot is non-zero the `P` matrix exists -/
+theorem pivot_sufficient (X P : MRep) (m : M2 K) (Z0 : K) (h : pivot X P m ≠ 0) :
+    ∃ z : M2 K, ∀ p, rel X.toRep m Z0 p ↔ rel P.toRep z Z0 p := by
+  cases hd : directConv X P m with
+  | some z => exact ⟨z, directConv_sound X P m z Z0 hd h⟩
+  | none =>
+    refine ⟨conv X P m Z0, fun p => conv_sound X P m Z0 p ?_⟩
+    cases X <;> cases P <;> simp only [directConv, reduceCtorEq] at hd <;>
+      simpa only [okc, pivot, ok_A_A, ok_A_B, ok_A_H, ok_A_Y, ok_A_Z, ok_B_A, ok_B_B, ok_B_G, ok_B_H, ok_B_Y, ok_B_Z,
+        ok_G_A, ok_G_B, ok_G_G, ok_G_H, ok_H_A, ok_H_B, ok_H_G, ok_H_H, ok_H_Y, ok_H_Z,
+        ok_Y_A, ok_Y_B, ok_Y_H, ok_Y_Y, ok_Y_Z, ok_Z_A, ok_Z_B, ok_Z_H, ok_Z_Y, ok_Z_Z, ne_eq, not_false_eq_true] using h
+
+/-- (G3) representation `P` of the two-port with `X` matrix `m` exists exactly when the pivot is non-zero -/
+theorem pivot_exact (X P : MRep) (m : M2 K) (Z0 : K) :
+    (∃ z : M2 K, ∀ p, rel X.toRep m Z0 p ↔ rel P.toRep z Z0 p) ↔ pivot X P m ≠ 0 :=
+  ⟨fun h h0 => pivot_necessary X P m Z0 h0 h, pivot_sufficient X P m Z0⟩
+
+/-- the side condition of every Lcapy route implies the pivot (Lcapy never returns a finite matrix
+    that does not exist); for the five delegated pairs it is strictly stronger -/
+theorem okc_implies_pivot (X P : MRep) (m : M2 K) (Z0 : K) (h : okc X P m Z0) : pivot X P m ≠ 0 :=
+  (pivot_exact X P m Z0).mp ⟨conv X P m Z0, fun p => conv_sound X P m Z0 p h⟩
+
+/-- e.g. an ideal transformer (A = diag(n, 1/n)) has neither Z nor Y; a series impedance alone
+    (A = [[1, Z], [0, 1]]) has Y but no Z -/
+example : pivot .A .Z (⟨2, 0, 0, 1/2⟩ : M2 ℚ) = 0 ∧ pivot .A .Y (⟨2, 0, 0, 1/2⟩ : M2 ℚ) = 0 := by
+  norm_num [pivot]
+example : pivot .A .Z (⟨1, 5, 0, 1⟩ : M2 ℚ) = 0 ∧ pivot .A .Y (⟨1, 5, 0, 1⟩ : M2 ℚ) ≠ 0 := by
+  norm_num [pivot]
+/-- G of A = [[2, 3], [5, 0]] exists (a11 ≠ 0) although Lcapy's route through H does not (a22 = 0) -/
+example : pivot .A .G (⟨2, 3, 5, 0⟩ : M2 ℚ) ≠ 0 ∧ ¬ okc .A .G (⟨2, 3, 5, 0⟩ : M2 ℚ) 1 := by
+  norm_num [pivot, okc, ok_A_G, ok_A_H]
+
+/-! ## 6. Non-vacuity -/
+def zSample : Stage ℚ := ⟨.Z, ⟨5, 2, 7, 3⟩, 3, -4⟩
+def ySample : Stage ℚ := ⟨.Y, ⟨1, 2, 3, 5⟩, 2, 1⟩
+def hSample : Stage ℚ := ⟨.H, ⟨2, 1/3, -4/5, 3/7⟩, 2, -3⟩
+def gSample : Stage ℚ := ⟨.G, ⟨2, 1/3, -4/5, 3/7⟩, 2, -3⟩
+def aSample : Stage ℚ := ⟨.A, ⟨2, 3, 5, 11⟩, 1, -2⟩
+
+macro "okm" : tactic => `(tactic|
+  (refine Or.inr ⟨?_, ?_, ?_⟩ <;>
+   norm_num [okc, conv, zSample, ySample, hSample, gSample, aSample,
+     ok_A_A, A_to_A, ok_A_B, A_to_B, ok_A_G, A_to_G, ok_A_H, A_to_H, ok_A_Y, A_to_Y, ok_A_Z, A_to_Z,
+     ok_B_A, B_to_A, ok_B_B, B_to_B, ok_B_G, B_to_G, ok_B_H, B_to_H, ok_B_Y, B_to_Y, ok_B_Z, B_to_Z,
+     ok_G_A, G_to_A, ok_G_B, G_to_B, ok_G_G, G_to_G, ok_G_H, G_to_H, ok_G_Y, G_to_Y, ok_G_Z, G_to_Z,
+     ok_H_A, H_to_A, ok_H_B, H_to_B, ok_H_G, H_to_G, ok_H_H, H_to_H, ok_H_Y, H_to_Y, ok_H_Z, H_to_Z,
+     ok_Y_A, Y_to_A, ok_Y_B, Y_to_B, ok_Y_G, Y_to_G, ok_Y_H, Y_to_H, ok_Y_Y, Y_to_Y, ok_Y_Z, Y_to_Z,
+     ok_Z_A, Z_to_A, ok_Z_B, Z_to_B, ok_Z_G, Z_to_G, ok_Z_H, Z_to_H, ok_Z_Y, Z_to_Y, ok_Z_Z, Z_to_Z,
+     M2.inv, M2.det, M2.sdiv]))
+
+example : okModel zSample.rep .B zSample.m 1 := by okm
+example : okModel ySample.rep .B ySample.m 1 := by okm
+example : okModel hSample.rep .B hSample.m 1 := by okm
+example : okModel gSample.rep .B gSample.m 1 := by okm
+example : okModel aSample.rep .B aSample.m 1 := by okm
+example : okModel zSample.rep .H zSample.m 1 := by okm
+example : okModel zSample.rep .G zSample.m 1 := by okm
+example : okModel hSample.rep .Y hSample.m 1 := by okm
+example : okModel gSample.rep .Z gSample.m 1 := by okm
+example : okModel aSample.rep .G aSample.m 1 := by okm
+example : okModel ySample.rep .A ySample.m 1 := by okm
+/-- a concrete mixed cascade satisfies the hypotheses of `cascade_tree` -/
+example : ∀ t ∈ (CTree.node (.node (.leaf zSample) (.leaf ySample)) (.leaf hSample)).leaves,
+    okModel t.rep .B t.m (1 : ℚ) := by
+  intro t ht
+  simp only [CTree.leaves, List.cons_append, List.nil_append, List.mem_cons, List.mem_nil_iff, or_false] at ht
+  rcases ht with rfl | rfl | rfl <;> okm
+/-- wave normalisation: r = 3 is a square root of Z0 = 9 -/
+example : (3 : ℚ) * 3 = 9 ∧ (9 : ℚ) ≠ 0 ∧ (2 : ℚ) ≠ 0 := by norm_num
+/-- a concrete port of the Z sample -/
+example : zSample.rel ⟨3 + 5 * 1 + 2 * 2, 1, -4 + 7 * 1 + 3 * 2, 2⟩ := by
+  norm_num [Stage.rel, zSample, arel, lin2]
 
 end Lcapy.C08
